@@ -237,6 +237,7 @@ def family_list(tier):
     if tier == 'thorough':
         fams += [('std-cogen-sf', F.lines(F.base(3, 51, 3, 3, (3, 2, 2)))), ('std-chiller-lhs', F.lines(F.base(1, 2, 5, 2, (3, 2, 1)))),
                  ('std-heatpump', F.lines(F.base(2, 2, 6, 4, (3, 2, 1))))]
+    fams.append(('sbt-eavorloop', F.lines(F.sbt_base(3, 31, 1, (3, 2, 1), 5))))     # closed loop: its own length / time / diameter inputs
     return fams
 
 
@@ -249,11 +250,22 @@ def plan(tier, seed):
         if tag[0] != 'ok':
             raise RuntimeError(f'discovery failed for {fam_id}: {tag[1]} {tag[2] if len(tag) > 2 else ""}')
         params, outs = tag[1]['params'], tag[1]['outputs']
+        base_vals = {l.split(',', 1)[0].strip(): l.split(',', 1)[1].strip() for l in lines if ',' in l}
         probes = []
         npairs = 0
         for name in sorted(params):
             rec = params[name]
             v = pick_value(rec)
+            if fam_id.startswith('sbt') and name in base_vals:
+                # closed-loop geometry: stay next to the base (a default-derived lateral depth of 5 km makes one run take minutes)
+                try:
+                    txt = base_vals[name].split()
+                    bv = float(txt[0]) if len(txt) == 1 else UR.convert(float(txt[0]), txt[1], rec['decl'])
+                    cand = float(f'{bv * 1.04:.6g}')
+                    if rec['min'] <= cand <= rec['max']:
+                        v = cand
+                except (ValueError, KeyError, TypeError):
+                    pass
             if v is None:
                 continue
             dims = UR.dims(rec['decl'])
